@@ -221,3 +221,8 @@ def run(ctx):
     from ..order import SubCtx
     from . import c08
     c08.run(SubCtx(ctx, 'C06.8-control-parse-table', 'control', allow=('C08.1-tryfrom', 'C08.2-')))
+
+    # dependency: Atom::new
+    ctx.rule('C06.8-atom-interning', 'atoms of the control message and payload are created with Atom::new while decoding: its interning tables agree entry by entry ("equal to what the peer sent")', floor=1)
+    from ..etf import check_atom_tables
+    check_atom_tables(ctx, 'C06.8-atom-interning')
